@@ -591,6 +591,7 @@ func init() {
 		ID:  "C15",
 		Run: runC15,
 		Rule: "case = a seeded history of create/put/replace/delete/get/list(index id|kind, 6 glob patterns, offset 0-2, limit 100/1/2/0/-1, reverse) over 4 ids that are prefixes of one another and 3 secondary-index values that change on replace; " +
+			"one operation in ten is a transaction of 2-3 writes (create/put/replace/delete) committed or rejected as a whole; " +
 			"sequential histories (2-12/30 ops) are replayed once per operation with a reopen on a byte copy of the Bolt file after that operation, and once per underlying write (Put/Delete/Commit) with that write failing; concurrent histories (2-3 clients x 1-7 ops) run under one seeded schedule and are checked with porcupine; " +
 			"non-trivial = every case; distinct = distinct (scenario, interleaving signature) pairs",
 		Real:        []string{"services/storage IndexedStore (put/replace/delete/list/DoListFunc)", "services/storage Bolt adapter (boltTx, nested buckets, list)", "go.etcd.io/bbolt on a real file (uninstrumented)"},
